@@ -16,7 +16,7 @@ PARTIAL = [
     "knot range: proved for curve / surface / volume POINT evaluation, for curve and surface DERIVATIVES (chain-rule factors a^-k, a1^-k*a2^-l; basis tables, A2.3 as coded, rational A4.2 / A4.4; knotvector.normalize: factor (last-first)^k), for knot insertion / removal / refinement at helper level and for one direction of insert_knot / remove_knot / refine_knotvector, for split (identical pieces), and NOW ALSO for the whole calls: insertKnot / removeKnot / refineKnotvector (the folds over the directions, any subset requested, completed / raised flag included) on the shape with EVERY knot vector mapped by its own x -> a_d*x + b_d (Shape.affineKvs; hypotheses only for the requested directions: a_d > 0, non-empty knot vector, and either tol' = a_d*tol for each of them - one common factor or tol = 0, since the call has ONE tolerance - or, for insert / remove, the same tolerance with the separation hypothesis per requested direction and arbitrary per-direction factors), split of a shape mapped in all directions (pieces identical: every direction is normalised), decomposeDirE and decomposeUVE - the decomposition WITH the exceptions of the code, what the driver op decomp runs - (same tolerance, separation hypothesis for the FIRST interior knot of the direction only; conclusion: both sides answer the same - both raise (a rejected first split, e.g. an end knot repeated p+2 times, is an exception on both ranges: decompose_rejected_first_split_raises_on_both_ranges) or both return the identical list of pieces -, or nothing is split on either side because there is no fuel / no interior knot and each returns its own un-normalised object; *_when_split: same answer as soon as there is an interior knot, for decomposeUVE then without any hypothesis about the v range; *_when_split_pieces: when the code does not raise the common answer is the list of the plain model decomposeDir). NOT theorems: volume derivatives (library stub); a scaled-tolerance form of decompose_* (false in general: after the first split both sides continue on the identical normalised piece, so the tolerances must agree); per-direction different factors with a scaled tolerance in ONE insert_knot / remove_knot / refine_knotvector call (the call has one tolerance; tol' = a_d*tol must hold for every requested direction); and the fixed tolerance of the code in REFINEMENT: the refinement theorems (helper, one direction, whole call) scale find_multiplicity's tolerance with the knot range (a*tol), i.e. they assume no knot distance falls between tol and a*tol (insert_knot / remove_knot / split / decompose have same-tolerance versions under the explicit hypothesis that every knot equals the parameter or is further than tol away in both ranges). The real operations are additionally run on both knot ranges by the oracle stream knot-range-ops (insert, insert+remove, refine on any subset of directions of curves / surfaces / volumes, decompose_curve / decompose_surface u / v / uv; exact arithmetic, no model involved)",
     "evaluator family: the evaluators AS CODED agree - CurveEvaluator (curveDersA32, A3.2 over A2.3) = CurveEvaluator2 (curveDersAt, A3.3/A3.4) in every entry k <= order (curve_evaluators_as_coded_agree), SurfaceEvaluator2 (surfaceDersA38, A3.7 + A3.8) = SurfaceEvaluator (surfaceDersA36, A3.6) in every entry with k + l <= order (surface_evaluators_as_coded_agree; the other entries of A3.8 stay zero) - on non-empty spans of sorted knot vectors inside the net (both sides equal the true derivative, C02); chain rule under an affine knot map also for the DEFAULT evaluators as coded through the span search on the closed domain (default_curve_derivatives_affine_knots, default_surface_derivatives_affine_knots); the theorems about curveDers / surfaceDersAt are about the A3.3/A3.4 evaluator resp. the tensor model, NOT about the default evaluator (their docs say so)",
     "span search option: termination / legal span index of find_span_binsearch on the whole domain is a theorem without the F-17b hypothesis, for tolerances 0 < tol < 1/2 only (the model's start index (p+n+1)/2 is the code's int(round((low+high)/2 + tol)) only there; with tol = 9 the real code raises IndexError; the driver runs the shipped tolerance 10e-6); equality with the linear search still needs the F-17b hypothesis (recorded finding)",
-    "evaluation with find_span_binsearch selected: curve / rational curve / surface / volume points and curve derivatives (both evaluators as coded) on the span the binary search returns are the Cox-de Boor sums / true derivatives on the whole closed domain (*_binsearch_selected, binsearch_span_found, binsearch_selected_any_span_function) under BinTolOk (0 < tol < 1/2 and the F-17b separation hypothesis, per direction; implied for every parameter by 'last span longer than the tolerance'); without it the evaluated point differs (curve_eval_binsearch_refuted_F17b). Surface derivatives / rational surfaces and volumes with the binary search follow from the span equality only (no separate statement)",
+    "evaluation with find_span_binsearch selected: curve / rational curve / surface / volume points and curve derivatives (both evaluators as coded) on the span the binary search returns are the Cox-de Boor sums / true derivatives on the whole closed domain (*_binsearch_selected, binsearch_span_found, binsearch_selected_any_span_function) for knot vectors with a NON-EMPTY last domain span (KnotsOk; the five statements are about findSpanBin, the search without the step back of the F-01b repair - BinTolOk alone is not enough: U = [0,0,1,2,4,4,5,5], p = 2, u = 4 meets it and findSpanBin returns the empty span 4) and under BinTolOk (0 < tol < 1/2 and the F-17b separation hypothesis, per direction; implied for every parameter by 'last span longer than the tolerance'); without it the evaluated point differs (curve_eval_binsearch_refuted_F17b). Surface derivatives / rational surfaces and volumes with the binary search follow from the span equality only (no separate statement). LIFTED to the repaired searches for point evaluation (statement audit 5): curve_/surface_/volume_eval_binsearchR_selected - on EVERY valid knot vector (DomOk: the last domain span may be empty), 0 < tol, 2 tol < 1 and the end hypothesis of findSpanBinR_eq_linearR per direction, the span(s) findSpanBinR returns are those of findSpanLinearR and the point computed on them is curvePointR / surfacePointR / volumePointR, i.e. the point of C01's *_eval_repaired_closed theorems (stream span-func tagged empty-last-span: find_span_binsearch selected on such shapes at U_n, model line cevalr / sevalr / vevalr). NOT lifted: derivatives with the binary search selected on knot vectors with an empty last span",
 ]
 TRUSTED = ["CPython functools.lru_cache implements the LRU contract", "multiprocessing.Pool.map preserves order"]
 OPS = {'curve': 'ceval', 'surface': 'seval', 'volume': 'veval'}
@@ -123,6 +123,25 @@ def gen(rng, tier):
     out.append(Case('cache-size', None, dict(seed=rng.randint(1, 10 ** 6))))
     out.append(Case('num-procs', None, dict(seed=rng.randint(1, 10 ** 6), scenario='tessellate')))
     out.append(Case('num-procs', None, dict(seed=rng.randint(1, 10 ** 6), scenario='voxelize')))
+    # binary search SELECTED on shapes with an EMPTY last domain span, at the domain end and inside (statement audit 5, S1):
+    # the model line is the evaluation through the REPAIRED linear search (cevalr / sevalr / vevalr), which the selected
+    # repaired binary search equals (curve_/surface_/volume_eval_binsearchR_selected); oracle: binary = linear
+    OPSR = {'curve': 'cevalr', 'surface': 'sevalr', 'volume': 'vevalr'}
+    for _ in range(12 if tier == 'quick' else 150):
+        d, k_ = S.empty_last_shape(rng)
+        ps = S.rand_params(rng, d)
+        if rng.random() < .6:
+            p_, kv_, n_ = S.dirs(d)[k_]
+            ps[k_] = kv_[n_]
+        ok = True
+        for (p_, kv_, n_), u in zip(S.dirs(d), ps):
+            end = kv_[n_]
+            if any(0 < end - t <= F(1, 50000) for t in kv_) or 0 < end - u <= F(1, 50000):
+                ok = False
+        if not ok:
+            continue
+        line = "%s %s %s" % (OPSR[d['kind']], S.args(d), " ".join(fr(x) for x in ps))
+        out.append(Case('span-func', line, dict(shape=d, params=ps), tags=('empty-last-span',)))
     return out
 
 
